@@ -379,5 +379,19 @@ example : matchFile [lit "x", lit "!x"] (lit "/p/x") = .ok false := by decide +k
 example : matchFile [lit "a\\"] (lit "/a") = .error .invalid := by decide +kernel
 example : matchFile [lit "a[bc]"] (lit "/ab") = .error .unsupported := by decide +kernel
 
+theorem segGlob_ok_of_check (g : Str) (h : (match segGlob g with | .ok _ => true | .error _ => false) = true) :
+    ∃ re, segGlob g = .ok re := by
+  cases hs : segGlob g with
+  | ok re => exact ⟨re, rfl⟩
+  | error e => rw [hs] at h; cases h
+
+/-- the hypotheses of `C15G_glob_component` are met by ordinary patterns -/
+example : OneSeg (lit "*.cmake") ∧ OneSeg (lit "mod?le-*") :=
+  ⟨⟨by decide, by decide, segGlob_ok_of_check _ (by decide +kernel), by decide, by decide, by decide, by decide, by decide⟩,
+   ⟨by decide, by decide, segGlob_ok_of_check _ (by decide +kernel), by decide, by decide, by decide, by decide, by decide⟩⟩
+example : (match compile (lit "*.cmake") with
+    | .ok c => c.hits (pstr [lit "p", lit "a.cmake"] false) && !c.hits (pstr [lit "p", lit "a.txt"] false)
+    | .error _ => false) = true := by decide +kernel
+
 end Glob
 end Cminx
